@@ -56,6 +56,9 @@ def abmfOp (st : Abmf.Store) : Tok → Abmf.Store × String
 def setTariff (st : List Rating.Tariff) (ue : Bytes) (rg : Nat) (c : Bytes) : List Rating.Tariff :=
   { ue := ue, rg := rg, unitCost := c } :: st.filter (fun a => ¬ (a.ue = ue ∧ a.rg = rg))
 
+/-- an amount of a service-usage request; `~`: the optional AVP is absent, the server decodes the zero value -/
+def amountTok (s : String) : Option Nat := if s = "~" then some 0 else s.toNat?
+
 def rfOp (st : List Rating.Tariff) : Tok → List Rating.Tariff × String
   | ["set", ue, rg, c] =>
     match bytesOfHex ue, rg.toNat?, bytesOfHex c with
@@ -66,7 +69,7 @@ def rfOp (st : List Rating.Tariff) : Tok → List Rating.Tariff × String
     -- no Subscription-Id AVP: handleSUR dereferences the nil pointer, go-diameter recovers and closes the connection
     (st, "panic")
   | ["sur", sess, subT, sub, rg, rs, cons, quota] =>
-    match bytesOfHex sess, subT.toNat?, bytesOfHex sub, rg.toNat?, rs.toNat?, cons.toNat?, quota.toNat? with
+    match bytesOfHex sess, subT.toNat?, bytesOfHex sub, rg.toNat?, rs.toNat?, amountTok cons, amountTok quota with
     | some sess, some subT, some sub, some rg, some rs, some cons, some quota =>
       let c : Rating.SUR := { sess := sess, subType := subT, subData := sub, rg := rg, reqSub := rs,
                               consumed := cons, quota := quota }
@@ -137,7 +140,7 @@ def abmfJudge : Tok → String
 /-- `rfjudge <storedHex|?> <7 sur fields> noanswer` / `… ans <sess> <digits> <exp> <allowed> <price>` -/
 def rfJudge : Tok → String
   | stored :: sess :: subT :: sub :: rg :: rs :: cons :: quota :: rest =>
-    match bytesOfHex sess, subT.toNat?, bytesOfHex sub, rg.toNat?, rs.toNat?, cons.toNat?, quota.toNat? with
+    match bytesOfHex sess, subT.toNat?, bytesOfHex sub, rg.toNat?, rs.toNat?, amountTok cons, amountTok quota with
     | some sess, some subT, some sub, some rg, some rs, some cons, some quota =>
       let c : Rating.SUR := { sess := sess, subType := subT, subData := sub, rg := rg, reqSub := rs,
                               consumed := cons, quota := quota }
